@@ -565,8 +565,30 @@ pub fn make(kind: &'static str, want: Option<&Ty>, env: &Env, s: &mut Sel) -> Op
             if want.is_some() || !env.stmts {
                 return None;
             }
-            let n = if env.pure_ { 2 } else { 6 };
+            // (pure contexts use the first four spellings only)
+            let n = if env.pure_ { 4 } else { 11 };
             match s.below(n) {
+                // declared types that themselves unify with void: `void`, the wildcard `*`, a generic `*T`
+                2 => Some(plant(
+                    kind,
+                    "zq2 :: pu do\nend\nzq1: void : zq2()".into(),
+                    "zq2 :: pu -> int do\n1\nend\nzq1: int : zq2()".into(),
+                    Form::Stmt,
+                )),
+                3 => Some(plant(
+                    kind,
+                    "zq2 :: pu do\nend\nzq1: * : zq2()".into(),
+                    "zq2 :: pu -> int do\n1\nend\nzq1: * : zq2()".into(),
+                    Form::Stmt,
+                )),
+                8 => Some(plant(kind, "zq1: void = print(1)".into(), "zq1: str = as_str(1)".into(), Form::Stmt)),
+                9 => Some(plant(kind, "zq1: * = print(1)\nzq2 := [zq1, zq1]".into(), "zq1: * = as_str(1)\nzq2 := [zq1, zq1]".into(), Form::Stmt)),
+                10 => Some(plant(
+                    kind,
+                    "zq2 :: fn do\nend\nzq1: *ZqT = zq2()".into(),
+                    "zq2 :: fn -> int do\n1\nend\nzq1: *ZqT = zq2()".into(),
+                    Form::Stmt,
+                )),
                 0 => Some(plant(
                     kind,
                     "zq2 :: pu do\nend\nzq1 :: zq2()".into(),
@@ -579,9 +601,9 @@ pub fn make(kind: &'static str, want: Option<&Ty>, env: &Env, s: &mut Sel) -> Op
                     "zq2 :: pu zqp: int -> int do\nzqp\nend\nzq1: int : zq2(1)".into(),
                     Form::Stmt,
                 )),
-                2 => Some(plant(kind, "zq1 := print(1)".into(), "zq1 := as_str(1)".into(), Form::Stmt)),
-                3 => Some(plant(kind, "zq1 :: print(\"s\")".into(), "zq1 :: as_str(\"s\")".into(), Form::Stmt)),
-                4 => Some(plant(
+                4 => Some(plant(kind, "zq1 := print(1)".into(), "zq1 := as_str(1)".into(), Form::Stmt)),
+                5 => Some(plant(kind, "zq1 :: print(\"s\")".into(), "zq1 :: as_str(\"s\")".into(), Form::Stmt)),
+                6 => Some(plant(
                     kind,
                     "zq2 :: fn do\nend\nzq1 := zq2()".into(),
                     "zq2 :: fn -> int do\n1\nend\nzq1 := zq2()".into(),
